@@ -323,7 +323,21 @@ def run(ctx):
     from engine.analyses import enumerate_paths, PathLimit
     from . import roles as _roles
     # the remembered modification time: a SystemTime, or an Option of one (None = no file loaded)
-    ts_fields = [n for n, t in R["fields"].items() if t == "std::time::SystemTime" or t.replace(" ", "") == "std::option::Option<std::time::SystemTime>"]
+    def _is_file_state(t):
+        """SystemTime, Option<SystemTime>, or a private enum with one variant carrying the time and field-less variants for 'no file'."""
+        if t == "std::time::SystemTime" or t.replace(" ", "") == "std::option::Option<std::time::SystemTime>":
+            return True
+        a = prog.adts.get(t)
+        if a and a.get("kind") == "enum":
+            with_t = [v for v in a["variants"] if any(f["ty"] == "std::time::SystemTime" for f in v["fields"])]
+            rest = [v for v in a["variants"] if v not in with_t]
+            return len(with_t) == 1 and rest and all(not v["fields"] for v in rest)
+        return False
+    ts_fields = [n for n, t in R["fields"].items() if _is_file_state(t)]
+    # discriminant values that mean 'nothing loaded': None of an Option (0), the field-less variants of a private state enum
+    _ts_ty = R["fields"].get(ts_fields[0]) if len(ts_fields) == 1 else None
+    _ts_adt = prog.adts.get(_ts_ty or "")
+    nothing_idx = {i for i, v in enumerate(_ts_adt["variants"]) if not v["fields"]} if _ts_adt else {0}
     if len(ts_fields) != 1:
         r4.undecidable("gate", "modification-time field (SystemTime) of the phonetic method matched %s" % ts_fields)
     else:
@@ -393,13 +407,16 @@ def run(ctx):
                     while d0.k == "un" and d0.a[0] == "Not":
                         d0 = strip_refs(d0.a[1])
                         neg = not neg
-                    if d0.k == "call" and any(self_path(x) == (ts,) for a_ in d0.a[1] for x in a_.walk()):
+                    if d0.k == "call" and any((self_path(x) or ())[:1] == (ts,) for a_ in d0.a[1] for x in a_.walk()):
                         nm = d0.a[0].split("::")[-1]
                         if nm in ("ne", "eq"):
                             gate = gate or "differs"
                         elif nm in ("gt", "lt", "ge", "le"):
                             ordering = (nm, sbb)
                             gate = gate or "ordering"
+                    if d0.k == "bin" and d0.a[0] in ("Eq", "Ne") and any(strip_refs(x_).k == "discr" and (self_path(strip_refs(x_).a[0]) or ())[:1] == (ts,)
+                                                                          for x_ in (d0.a[1], d0.a[2])):
+                        gate = gate or "differs"       # the remembered state compared as a whole (a derived `!=` on a state enum tests the variants first)
                     if d0.k == "discr" and strip_refs(d0.a[0]).k == "call" and strip_refs(d0.a[0]).a[0].endswith("File::open"):      # the open's own result, not a value derived from the file
                         is_err = vals == (1,) or (vals == "otherwise" and 1 not in allv and 0 in allv)
                         if is_err:
@@ -439,14 +456,18 @@ def run(ctx):
                     if d0.k == "discr" and strip_refs(d0.a[0]).k == "call" and strip_refs(d0.a[0]).a[0].endswith("File::open"):
                         outcomes.append(vals == (1,) or (vals == "otherwise" and 1 not in allv and 0 in allv))
                         continue
-                    mentions_ts = any(self_path(x) == (ts,) for x in d0.walk())
+                    mentions_ts = any((self_path(x) or ())[:1] == (ts,) for x in d0.walk())
                     mentions_map = any(self_path(x)[:2] == (R["sug_field"], R["user_autocorrect"]) for x in d0.walk() if self_path(x))
                     truth = (vals != (0,)) if vals != "otherwise" else (0 in allv)          # the branch taken: discriminant / bool ≠ 0 ?
                     if neg_:
                         truth = not truth
                     if d0.k == "discr" and mentions_ts:
                         via_try = contains_call(d0, lambda n: n.endswith("Try>::branch")) is not None       # `state?`: Break (1) is None
-                        nothing_ = truth if via_try else (not truth)                                       # plain discriminant: 0 = None = nothing loaded
+                        if via_try:
+                            nothing_ = truth
+                        else:
+                            taken_ = set(vals) if vals != "otherwise" else (set(range(len(_ts_adt["variants"]) if _ts_adt else 2)) - set(allv))
+                            nothing_ = bool(taken_) and taken_ <= nothing_idx                              # the variant(s) taken mean 'nothing loaded'
                         why.append(("state" if nothing_ else "loaded", sbb))
                     elif d0.k == "call" and mentions_ts and d0.a[0].split("::")[-1] in ("is_some", "is_none"):
                         nothing = (not truth) if d0.a[0].split("::")[-1] == "is_some" else truth
@@ -483,7 +504,7 @@ def run(ctx):
                     if d0.k == "discr" and strip_refs(d0.a[0]).k == "call" and strip_refs(d0.a[0]).a[0].endswith("File::open"):
                         outcomes.append(vals == (1,) or (vals == "otherwise" and 1 not in allv and 0 in allv))
                         continue
-                    if d0.k == "call" and d0.a[0].split("::")[-1] in ("ne", "eq") and any(self_path(x) == (ts,) for a_ in d0.a[1] for x in a_.walk()):
+                    if d0.k == "call" and d0.a[0].split("::")[-1] in ("ne", "eq") and any((self_path(x) or ())[:1] == (ts,) for a_ in d0.a[1] for x in a_.walk()):
                         truth = (vals != (0,)) if vals != "otherwise" else (0 in allv)
                         if neg_:
                             truth = not truth
